@@ -156,7 +156,7 @@ func (d *DFA) FindAt(cache *DFACache, haystack []byte, at int) int {
 
 	if at == len(haystack) {
 		// At end of input - check if empty string matches
-		if d.matchesEmptyAt(haystack, at) {
+		if d.matchesEmptyAt(cache, haystack, at) {
 			return at
 		}
 		return -1
@@ -193,7 +193,7 @@ func (d *DFA) SearchAt(cache *DFACache, haystack []byte, at int) int {
 	}
 
 	if at == len(haystack) {
-		if d.matchesEmptyAt(haystack, at) {
+		if d.matchesEmptyAt(cache, haystack, at) {
 			return at
 		}
 		return -1
@@ -222,7 +222,7 @@ func (d *DFA) SearchAtAnchored(cache *DFACache, haystack []byte, at int) int {
 	}
 
 	if at == len(haystack) {
-		if d.matchesEmptyAt(haystack, at) {
+		if d.matchesEmptyAt(cache, haystack, at) {
 			return at
 		}
 		return -1
@@ -331,7 +331,7 @@ func (d *DFA) SearchFirstAt(cache *DFACache, haystack []byte, at int) int {
 	}
 
 	if at == len(haystack) {
-		if d.matchesEmptyAt(haystack, at) {
+		if d.matchesEmptyAt(cache, haystack, at) {
 			return at
 		}
 		return -1
@@ -541,7 +541,7 @@ func (d *DFA) IsMatch(cache *DFACache, haystack []byte) bool {
 func (d *DFA) IsMatchAt(cache *DFACache, haystack []byte, at int) bool {
 	if at >= len(haystack) {
 		if at == len(haystack) {
-			return d.matchesEmptyAt(haystack, at)
+			return d.matchesEmptyAt(cache, haystack, at)
 		}
 		return false
 	}
@@ -1630,9 +1630,14 @@ func (d *DFA) nfaFallbackAnchored(haystack []byte, at int) int {
 // end of a non-empty haystack (at == len(haystack)). Unlike matchesEmpty it
 // keeps the bytes before the position as context: ^ does not hold there,
 // (?m)^ only behind a line feed, and \b / \B depend on the last byte.
-func (d *DFA) matchesEmptyAt(haystack []byte, at int) bool {
-	start, end, matched := d.pikevm.SearchAt(haystack, at)
-	return matched && start == at && end == at
+//
+// The answer is the one every scan gives when it runs out of input: the start
+// state for the position (chosen by the byte before it) resolved against the
+// end of the text. It needs only the caller's cache, not the DFA's PikeVM,
+// which concurrent searches share.
+func (d *DFA) matchesEmptyAt(cache *DFACache, haystack []byte, at int) bool {
+	start := d.getStartStateForUnanchored(cache, haystack, at)
+	return start != nil && d.checkEOIMatch(start)
 }
 
 // matchesEmpty checks if the pattern matches an empty string
